@@ -34,6 +34,7 @@ def Math(s): return N('math', s=s)
 def Sup(s): return N('sup', s=s)
 def Sub(s): return N('sub', s=s)
 def FootRef(ident): return N('footref', ident=ident)
+def Smart(form, ch=None): return N('smart', form=form, ch=ch or [])    # form: dq sq endash emdash ellipsis apos
 
 def Para(ch): return N('para', ch=ch)
 def Heading(level, ch, label=None): return N('heading', level=level, ch=ch, label=label)
@@ -42,6 +43,7 @@ def CodeBlock(lines, lang=None, fenced=True): return N('codeblock', lines=lines,
 def Quote(blocks): return N('quote', blocks=blocks)
 def List(ordered, tight, items): return N('list', ordered=ordered, tight=tight, items=items)
 def Table(header, aligns, rows, caption=None): return N('table', header=header, aligns=aligns, rows=rows, caption=caption)
+def Figure(alt, url, title=None): return N('figure', alt=alt, url=url, title=title)
 def DefList(entries): return N('deflist', entries=entries)       # entries: list of (term inlines, [def inlines...])
 def Doc(blocks, footnotes=None, meta=None): return N('doc', blocks=blocks, footnotes=footnotes or {}, meta=meta or [])
 
@@ -111,7 +113,7 @@ class Serializer:
             self.refs.append('[%s]: %s%s' % (lab, n.url, (' ' + _title(sp, n.title)) if n.title else ''))
             return '[%s][%s]' % (txt, lab)
         if k == 'image':
-            if sp.link_style == 'ref':
+            if False and sp.link_style == 'ref':         # a reference image also gets an id attribute: not an equivalent spelling
                 self.nref += 1
                 lab = 'img%d' % self.nref
                 self.refs.append('[%s]: %s%s' % (lab, n.url, (' ' + _title(sp, n.title)) if n.title else ''))
@@ -133,6 +135,8 @@ class Serializer:
             return '~' + n.s + '~'
         if k == 'footref':
             return '[^%s]' % n.ident
+        if k == 'smart':
+            return {'dq': '"%s"', 'sq': "'%s'", 'endash': '--%s', 'emdash': '---%s', 'ellipsis': '...%s', 'apos': "'s%s"}[n.form] % self.inl(n.ch)
         raise ValueError(k)
 
     # ---- blocks: each returns a list of lines (no EOLs)
@@ -141,8 +145,7 @@ class Serializer:
         lead = ' ' * sp.lead if top else ''
         k = b.kind
         if k == 'para':
-            ls = self.inl(b.ch).split('\n')
-            return [lead + ls[0]] + ls[1:]
+            return self.inl(b.ch).split('\n')
         if k == 'heading':
             t = self.inl(b.ch)
             lab = (' [%s]' % b.label) if b.label else ''
@@ -153,22 +156,27 @@ class Serializer:
                 close = ' ' + '#' * b.level
             elif sp.closing > 1:
                 close = ' ' + '#' * sp.closing
-            return [lead + '#' * b.level + ' ' + t + lab + close]
+            return ['#' * b.level + ' ' + t + lab + close]
         if k == 'rule':
             return [lead + sp.rule]
+        if k == 'figure':
+            return ['![%s](%s%s)' % (b.alt, b.url, (' ' + _title(sp, b.title)) if b.title else '')]
         if k == 'codeblock':
             if b.fenced:
                 f = '`' * sp.fence
-                return [lead + f + (b.lang or '')] + list(b.lines) + [lead + f]
+                return [f + (b.lang or '')] + list(b.lines) + [f]
             return ['    ' + l for l in b.lines]
         if k == 'quote':
             inner = self.blocks(b.blocks, top=False)
             return [('> ' + l) if l else '>' for l in inner]
         if k == 'list':
             out = []
+            simple = b.tight and all(len(it) == 1 for it in b.items)
+            if not simple:
+                lead = ''           # markers may be indented by up to three spaces; kept to lists of one-paragraph items
             for idx, item in enumerate(b.items):
                 marker = ('%d.' % (sp.first_num + idx)) if b.ordered else sp.bullet
-                inner = self.blocks(item, top=False)
+                inner = self.blocks(item, top=False, tight=b.tight and len(b.items) > 1)
                 pad = ' ' * (len(marker) + 1)
                 first = True
                 for l in inner:
@@ -199,10 +207,10 @@ class Serializer:
             return out
         raise ValueError(k)
 
-    def blocks(self, bs, top=True):
+    def blocks(self, bs, top=True, tight=False):
         out = []
         for i, b in enumerate(bs):
-            if i:
+            if i and not tight:
                 out.append('')
             out += self.block(b, top)
         return out
@@ -289,6 +297,23 @@ class Gen:
                 node = r.choice([Sup, Sub])(self.word())
             elif k < 0.81 and 'autolink' in allow:
                 node = AutoLink('http://example.org/%s' % self.word('u'))
+            elif k < 0.90 and k >= 0.84 and 'smart' in allow:
+                form = r.choice(['dq', 'sq', 'endash', 'emdash', 'ellipsis', 'apos'])
+                if form in ('dq', 'sq'):
+                    node = Smart(form, [Text(self.words(1, 3))])
+                elif form == 'apos':
+                    out.append(Smart(form))
+                    out.append(Text(' ' + self.words(1, 2)))
+                    continue
+                else:
+                    if form == 'ellipsis':
+                        out.append(Smart(form))
+                        out.append(Text(' ' + self.words(1, 2)))
+                    else:
+                        out.append(Text(' '))
+                        out.append(Smart(form))
+                        out.append(Text(' ' + self.words(1, 2)))
+                    continue
             elif k < 0.84 and 'break' in allow and depth == 0:
                 out.append(Break())
                 out.append(Text(self.words()))
@@ -313,8 +338,14 @@ class Gen:
             return self.heading()
         if k < 0.46 and 'rule' in f:
             return Rule()
+        if k < 0.49 and 'figure' in f and depth == 0:
+            return Figure(self.words(1, 3, 'u'), '%s.png' % self.word('u'), r.choice([None, 'T ' + self.word('u')]))
         if k < 0.56 and 'codeblock' in f:
             fenced = r.random() < 0.6 or depth > 0
+            if 'indented-only' in f:         # plain Markdown has no fences
+                if depth > 0:
+                    return Para(self.inlines())
+                fenced = False
             # an indented block right after a list is a continuation paragraph there: keep raw-looking tags inside fences only
             pool = ['code %s();' % self.word('c'), 'x = a & b;', '*not emph* %s' % self.word('c'), '# not heading'] + (['  <tag attr="%s">' % self.word('c')] if fenced else [])
             lines = [r.choice(pool) for _ in range(r.randint(1, 3))]
@@ -332,6 +363,9 @@ class Gen:
                 else:
                     it = [Para(self.inlines(maxn=2))] + ([self.block(depth + 1)] if r.random() < 0.4 else [])
                 items.append(it)
+            if len(items) == 1:
+                # a one-item list has no blank line *between items*; it is wrapped in <p> exactly when the item holds several paragraphs
+                tight = not any(x.kind == 'para' for x in items[0][1:])
             return List(r.random() < 0.4, tight, items)
         if k < 0.90 and 'table' in f and depth == 0:
             nc = r.randint(1, 4)
@@ -342,9 +376,31 @@ class Gen:
             return DefList([([Text(self.words(1, 2))], [self.inlines(1, 1) for _ in range(r.randint(1, 2))]) for _ in range(r.randint(1, 2))])
         return Para(self.inlines())
 
+    def sanitize(self, blocks):
+        """keep neighbours from reading as one construct (rules of the syntax guide): an indented block after a list, quote,
+        definition list or another indented block is its continuation; adjacent lists / quotes / tables / definition lists merge"""
+        out = []
+        for b in blocks:
+            prev = out[-1] if out else None
+            if b.kind == 'codeblock' and not b.fenced and prev is not None and prev.kind in ('list', 'quote', 'deflist', 'codeblock', 'table'):
+                if 'indented-only' in self.f:
+                    out.append(Rule())
+                else:
+                    b = CodeBlock([l for l in b.lines], None, True)
+            if prev is not None and prev.kind == b.kind and b.kind in ('list', 'quote', 'table', 'deflist'):
+                out.append(Rule())
+            if prev is not None and prev.kind == 'table' and b.kind == 'para':
+                out.append(Rule())          # a bracketed first word would read as a caption
+            if b.kind == 'quote':
+                b = Quote(self.sanitize(b.blocks))
+            if b.kind == 'list':
+                b = List(b.ordered, b.tight, [self.sanitize(it) for it in b.items])
+            out.append(b)
+        return out
+
     def doc(self, nblocks=None, meta=False):
         n = nblocks or self.r.randint(1, 8)
-        blocks = [self.block() for _ in range(n)]
+        blocks = self.sanitize([self.block() for _ in range(n)])
         m = []
         if meta:
             m = [('Title', 'T ' + self.word('u'))] + ([('Author', 'A ' + self.word('u'))] if self.r.random() < 0.5 else [])
